@@ -468,6 +468,86 @@ func init() {
 		return bytesToString(a[0].([]value))
 	}
 
+	// ---- math/big: modular exponentiation with a symbolic exponent ----
+	// x^y mod m for concrete x, m and a solver-chosen exponent y >= 1 whose domain spans at
+	// least m consecutive values: the result ranges exactly over the orbit {x^k mod m : k>=1}.
+	// The path forks over the orbit; each branch pins y to the first exponent k that yields
+	// the element (every other exponent with the same residue behaves identically afterwards,
+	// because callers use only the result), so a counterexample replays natively.
+	intrinsics["(*math/big.Int).Exp"] = func(fr *frame, a []value) value {
+		word := func(v value) (value, bool) { // single-word non-negative big.Int -> its word
+			p, ok := v.(*value)
+			if !ok || p == nil {
+				return nil, false
+			}
+			st := (*p).(structure)
+			if nb, _ := st[0].(bool); nb {
+				return nil, false
+			}
+			abs, _ := st[1].([]value)
+			switch len(abs) {
+			case 0:
+				return cint(0), true
+			case 1:
+				return abs[0], true
+			}
+			return nil, false
+		}
+		xv, ok1 := word(a[1])
+		yv, ok2 := word(a[2])
+		mv, ok3 := word(a[3])
+		yt, sym := yv.(*Term)
+		if !ok1 || !ok2 || !ok3 || !sym {
+			return notHandled{}
+		}
+		xc, okx := xv.(cint)
+		mc, okm := mv.(cint)
+		if !okx || !okm || uint64(mc) < 2 || uint64(mc) > 1<<20 {
+			panic(unsupported("big.Int.Exp with symbolic exponent: base/modulus not concrete or modulus too large"))
+		}
+		modelsUsed["big.Int.Exp(symbolic exponent) as fork over the orbit of the base"]++
+		m := uint64(mc)
+		x := uint64(xc) % m
+		var orbit []uint64
+		seen := map[uint64]bool{}
+		for v := x; !seen[v]; v = v * x % m {
+			seen[v] = true
+			orbit = append(orbit, v)
+		}
+		ex := curExec()
+		k := 0
+		if ex.concrete != nil {
+			// concrete mode: compute directly
+			y := evalTerm(yt, ex.concrete, map[*Term]uint64{})
+			r := uint64(1)
+			b := x
+			for e := y; e > 0; e >>= 1 {
+				if e&1 == 1 {
+					r = r * b % m
+				}
+				b = b * b % m
+			}
+			for i, v := range orbit {
+				if v == r {
+					k = i
+				}
+			}
+		} else {
+			k = ex.choose(len(orbit), "exp-orbit")
+			ex.assume(mkEq(yt, mkConst(uint64(k+1), yt.w)))
+		}
+		// store the result in z
+		z := a[0].(*value)
+		zs := (*z).(structure)
+		setCell(&zs[0], false)
+		if orbit[k] == 0 {
+			setCell(&zs[1], []value{})
+		} else {
+			setCell(&zs[1], []value{cint(orbit[k])})
+		}
+		return z
+	}
+
 	// ---- math/big assembly kernels: use the portable versions ----
 	for _, k := range []string{"addVV", "subVV", "addVW", "subVW", "shlVU", "shrVU", "mulAddVWW", "addMulVVW"} {
 		k := k
